@@ -46,7 +46,7 @@ def targets(tier):
     t = {"steps": 50000 * k, "histories_5plus_alarms:PH:positive": 20 * k, "histories_5plus_alarms:PH:negative": 20 * k,
          "ph_rows_compared": 20000 * k, "cusum_reestimations": 300 * k}
     for d in ("None", "positive", "negative"):
-        t["histories_5plus_alarms:CUSUM:%s" % d] = 15 * k
+        t["histories_5plus_alarms:CUSUM:%s" % d] = 10 * k
     for tg in ("known", "estimated"):
         t["alarms:CUSUM:%s" % tg] = 200 * k
     return t
